@@ -51,6 +51,7 @@ package json
 //@   nopanic
 //@   modifies s.finds, s.finds[*]
 //@   ensures result == old(s.finds[0]) && len(s.finds) == old(len(s.finds)) - 1
+//@   ensures s.finds.$arr == old(s.finds.$arr) && s.finds.$off == old(s.finds.$off)
 //@   ensures forall i :: 0 <= i && i < len(s.finds) ==> s.finds[i] == old(s.finds[i+1])
 
 //@ func isNonScalarPair(pairType, lexType)
@@ -86,26 +87,117 @@ package json
 //@   ensures isOpenKind(lexType) ==> stkDepth(s) == old(stkDepth(s)) + 1 && s.stack.vals[stkDepth(s)-1] == result && (forall k :: 0 <= k && k < stkDepth(s) - 1 ==> s.stack.vals[k] == old(s.stack.vals[k]))
 //@   ensures lexType == lexeme.EndTop ==> stkDepth(s) == old(stkDepth(s)) && (forall k :: 0 <= k && k < stkDepth(s) ==> s.stack.vals[k] == old(s.stack.vals[k]))
 //@   ensures old(scanInv(s, lexType)) ==> scanInv(s, NOEV)
+//@   ensures s.stack.vals.$arr == old(s.stack.vals.$arr) || fresh(s.stack.vals)
 
 //@ func (*scanner).Next()
 //@   props C05 C06 C07 C17
 //@   requires s != nil && s.index < 18446744073709551615
-//@   requires nextOK(s) && allocated(s.finds) && allocated(s.returnToStep.vals) && allocated(s.stack.vals)
+//@   requires nextOK(s)
 //@   maypanic
 //@   modifies s.index, s.step, s.finds, s.finds[*], s.unfinishedLiteral, s.returnToStep.vals, s.returnToStep.vals[*], s.stack.vals, s.stack.vals[*]
 //@   ensures normal ==> nextOK(s)
 //@   ensures normal && !result1 ==> stkDepth(s) == 0 && s.index >= s.dataSize && len(s.finds) == 0
 //@   ensures normal && result1 ==> (isOpenKind(result0.lexEventType) || isCloseKind(result0.lexEventType) || result0.lexEventType == lexeme.EndTop)
 //@   ensures normal && result1 ==> result0.begin <= result0.end && result0.end < s.dataSize && result0.file == s.file
+//@   ensures normal && result1 ==> result0.end + 1 <= s.index && 4 * s.index - len(s.finds) > 4 * old(s.index) - old(len(s.finds))
+//@   ensures normal && result1 && result0.lexEventType == lexeme.EndTop ==> result0.begin == s.index - 1 && result0.end == s.index - 1 && !isWS(s.data[s.index - 1]) && s.index <= s.dataSize
+//@   ensures normal && result1 ==> s.step != stateFoundRootValue
+//@   ensures normal && result1 && isCloseKind(result0.lexEventType) ==> result0.end == spanEnd(result0.lexEventType, s.index - 1)
+//@   ensures normal && result1 && isOpenKind(result0.lexEventType) ==> stkDepth(s) >= 1
+//@   ensures normal && result1 && s.index > s.dataSize ==> s.index == s.dataSize + 1 && result0.lexEventType == lexeme.LiteralEnd
+//@   ensures normal && result1 && isCloseKind(result0.lexEventType) && len(s.finds) == 1 && s.finds[0] == lexeme.EndTop ==> result0.lexEventType == lexeme.LiteralEnd
+//@   ensures normal && !result1 && old(s.index <= s.dataSize) ==> old(stkDepth(s) == 0 && len(s.finds) == 0)
+//@   ensures normal && !result1 ==> (old(s.step) == stateFoundRootValue <==> s.step == stateFoundRootValue)
+//@   ensures normal && result1 && topDone(s) && result0.lexEventType == lexeme.LiteralEnd ==> isWS(s.data[s.index - 1])
+//@   ensures normal && result1 && topDone(s) ==> (result0.lexEventType == lexeme.LiteralEnd || result0.lexEventType == lexeme.ObjectEnd || result0.lexEventType == lexeme.ArrayEnd || result0.lexEventType == lexeme.EndTop)
+//@   ensures normal ==> (s.finds.$arr == old(s.finds.$arr) || s.finds.$arr > old(alloc)) && (s.returnToStep.vals.$arr == old(s.returnToStep.vals.$arr) || s.returnToStep.vals.$arr > old(alloc)) && (s.stack.vals.$arr == old(s.stack.vals.$arr) || s.stack.vals.$arr > old(alloc))
+//@   ensures normal ==> (s.index <= s.dataSize + 1 || s.index == old(s.index)) && s.index >= old(s.index)
+//@   ensures normal ==> s.data == old(s.data) && s.file == old(s.file) && s.dataSize == old(s.dataSize)
+//@   ensures normal && old(topDone(s)) ==> (result1 ? (result0.lexEventType == lexeme.EndTop && wsRun(s, old(s.index), s.index - 1)) : (s.index == s.dataSize && wsRun(s, old(s.index), s.dataSize)))
 //@   ensures old(s.index == s.dataSize && len(s.finds) == 0) ==> (panics <==> (old(stkDepth(s)) >= 1 && !(old(stkTop(s)) == lexeme.LiteralBegin && !unfRef(old(s.step)))))
 //@   ensures panics ==> typeis(pv, errors.DocumentError) && unbox(pv, errors.DocumentError).hasIndex && unbox(pv, errors.DocumentError).index < s.dataSize && unbox(pv, errors.DocumentError).file == s.file
 //@   ensures panics ==> (unbox(pv, errors.DocumentError).code == 301 || (unbox(pv, errors.DocumentError).code == 303 && unbox(pv, errors.DocumentError).index == s.dataSize - 1))
 //@   loop 0 invariant nextOK(s) && len(s.finds) == 0
 //@   loop 0 invariant s.index >= old(s.index) && (s.index == old(s.index) ==> s.step == old(s.step) && s.unfinishedLiteral == old(s.unfinishedLiteral)) && (s.index > s.dataSize ==> s.index == old(s.index))
+//@   loop 0 invariant old(topDone(s)) ==> (topDone(s) && wsRun(s, old(s.index), s.index))
+//@   loop 0 invariant old(s.step) == stateFoundRootValue <==> s.step == stateFoundRootValue
 //@   loop 0 invariant s.finds.$arr == old(s.finds.$arr) || s.finds.$arr > old(alloc)
 //@   loop 0 invariant s.returnToStep.vals.$arr == old(s.returnToStep.vals.$arr) || s.returnToStep.vals.$arr > old(alloc)
 //@   loop 0 invariant s.stack.vals == old(s.stack.vals) && (forall k :: 0 <= k && k < stkDepth(s) ==> s.stack.vals[k] == old(s.stack.vals[k]))
 //@   loop 0 decreases s.dataSize - s.index
+
+//@ func (*scanner).Length()
+//@   props C14 C07
+//@   requires s != nil && s.index < 18446744073709551615
+//@   requires nextOK(s)
+//@   requires s.step == stateFoundRootValue && s.index == 0
+//@   maypanic
+//@   modifies s.index, s.step, s.finds, s.finds[*], s.unfinishedLiteral, s.returnToStep.vals, s.returnToStep.vals[*], s.stack.vals, s.stack.vals[*]
+//@   ensures normal ==> result <= len(s.data) && (result == 0 || !isBlank(s.data[result-1]))
+//@   ensures normal && result > 0 ==> (exists P :: result <= P && P <= len(s.data) && wsRun(s, result, P) && (P == len(s.data) || !isWS(s.data[P])))
+//@   ensures panics ==> typeis(pv, errors.DocumentError) && unbox(pv, errors.DocumentError).hasIndex && unbox(pv, errors.DocumentError).index < len(s.data) && unbox(pv, errors.DocumentError).file == s.file
+//@   loop 0 invariant nextOK(s) && s.index < 18446744073709551615 && length <= s.index && length <= s.dataSize && s.dataSize == len(s.data)
+//@   loop 0 invariant s.data == old(s.data) && s.file == old(s.file) && s.dataSize == old(s.dataSize)
+//@   loop 0 invariant s.finds.$arr == old(s.finds.$arr) || s.finds.$arr > old(alloc)
+//@   loop 0 invariant s.returnToStep.vals.$arr == old(s.returnToStep.vals.$arr) || s.returnToStep.vals.$arr > old(alloc)
+//@   loop 0 invariant s.stack.vals.$arr == old(s.stack.vals.$arr) || s.stack.vals.$arr > old(alloc)
+//@   loop 0 invariant s.step == stateFoundRootValue ==> length == 0
+//@   loop 0 invariant s.index > s.dataSize ==> length == s.dataSize
+//@   loop 0 invariant topDone(s) ==> wsRun(s, length, s.index)
+//@   loop 0 invariant (stkDepth(s) == 0 && len(s.finds) == 1 && s.finds[0] == lexeme.EndTop) ==> length == s.index - 1
+//@   loop 0 decreases 4 * (s.dataSize + 2) - (4 * s.index - len(s.finds))
+//@   loop 1 invariant length <= len(s.data) && s.data == old(s.data) && (s.step == stateFoundRootValue ==> length == 0)
+//@   loop 1 invariant s.step != stateFoundRootValue ==> (exists P :: length <= P && P <= len(s.data) && wsRun(s, length, P) && (P == len(s.data) || !isWS(s.data[P])))
+//@   loop 1 decreases length
+
+//@ func newScanner(file)
+//@   props C05 C06 C11
+//@   requires file != nil
+//@   nopanic
+//@   ensures fresh(result) && nextOK(result) && result.index == 0 && result.file == file && !result.allowTrailingNonSpaceCharacters
+//@   ensures stkDepth(result) == 0 && len(result.finds) == 0 && result.step == stateFoundRootValue
+//@   ensures fresh(result.finds) && fresh(result.stack) && fresh(result.returnToStep)
+
+//@ func (*Document).rewind()
+//@   props C05 C11
+//@   requires d != nil && d.file != nil
+//@   nopanic
+//@   modifies d.scanner
+//@   ensures fresh(d.scanner) && nextOK(d.scanner) && d.scanner.index == 0 && d.scanner.file == d.file
+//@   ensures d.scanner.allowTrailingNonSpaceCharacters == d.allowTrailingNonSpaceCharacters
+//@   ensures stkDepth(d.scanner) == 0 && len(d.scanner.finds) == 0 && d.scanner.step == stateFoundRootValue
+
+//@ func (*Document).nextLexeme()
+//@   props C05 C06 C07 C17
+//@   requires d != nil && d.scanner != nil && d.scanner.index < 18446744073709551615
+//@   requires nextOK(d.scanner)
+//@   nopanic
+//@   modifies d.scanner.index, d.scanner.step, d.scanner.finds, d.scanner.finds[*], d.scanner.unfinishedLiteral, d.scanner.returnToStep.vals, d.scanner.returnToStep.vals[*], d.scanner.stack.vals, d.scanner.stack.vals[*]
+//@   ensures err == nil ==> nextOK(d.scanner) && lex.begin <= lex.end && lex.end < d.scanner.dataSize && lex.lexEventType != lexeme.EndTop
+//@   ensures err != nil ==> (err == io.EOF || (typeis(err, errors.DocumentError) && unbox(err, errors.DocumentError).hasIndex && unbox(err, errors.DocumentError).index < d.scanner.dataSize && unbox(err, errors.DocumentError).file == d.scanner.file))
+
+//@ func (*Document).check()
+//@   props C05 C07 C11 C17
+//@   requires d != nil && d.file != nil
+//@   nopanic
+//@   modifies d.scanner
+//@   ensures fresh(d.scanner) && d.scanner.index == 0 && nextOK(d.scanner) && d.scanner.step == stateFoundRootValue
+//@   ensures result != nil ==> typeis(result, errors.DocumentError) && unbox(result, errors.DocumentError).file == d.file
+//@   ensures result != nil ==> (unbox(result, errors.DocumentError).code == 203 && !unbox(result, errors.DocumentError).hasIndex) || (unbox(result, errors.DocumentError).hasIndex && unbox(result, errors.DocumentError).index < len(d.file.content))
+//@   ensures result == nil ==> len(d.file.content) >= 1
+//@   loop 0 invariant d.scanner != nil && d.scanner > old(alloc) && nextOK(d.scanner) && d.scanner.index < 18446744073709551615 && d.scanner.file == d.file && d.scanner.dataSize == len(d.file.content)
+//@   loop 0 invariant jsonLexCounter <= d.scanner.index && (jsonLexCounter == 0 ==> d.scanner.step == stateFoundRootValue)
+//@   loop 0 invariant d.file == old(d.file) && d.file.content == old(d.file.content)
+
+//@ func (*Document).computeLen()
+//@   props C14 C07 C11
+//@   requires d != nil && d.file != nil
+//@   nopanic
+//@   modifies d.scanner
+//@   ensures fresh(d.scanner) && d.scanner.index == 0 && nextOK(d.scanner) && d.scanner.step == stateFoundRootValue
+//@   ensures err != nil ==> typeis(err, errors.DocumentError) && unbox(err, errors.DocumentError).hasIndex && unbox(err, errors.DocumentError).index < len(d.file.content) && unbox(err, errors.DocumentError).file == d.file
+//@   ensures err == nil ==> length <= len(d.file.content) && (length == 0 || !isBlank(d.file.content[length-1]))
+//@   ensures err == nil && length > 0 ==> (exists P :: length <= P && P <= len(d.file.content) && (forall k :: length <= k && k < P ==> isWS(d.file.content[k])) && (P == len(d.file.content) || !isWS(d.file.content[P])))
 
 //@ func stateFoundRootValue(s, c)
 //@   props C05 C06
